@@ -208,7 +208,13 @@ pub fn eval(dna: &[u16]) -> Pair {
     respell(&mut s1, &mut d);
     respell(&mut s2, &mut d);
     let a = s1.render_def_with("", true);
-    let b = s2.render_def_with("", true);
+    let mut b = s2.render_def_with("", true);
+    // one more spelling of the same tokens: as a `macro_rules!` body hands them to the derive, with field types,
+    // discriminants, parameter values and Into targets inside invisible groups (`__ng(..)`, see engine::none_groups)
+    if d.chance(30) {
+        let bits = 1 + d.pick(15) as u8;
+        b = s2.render_def_grouped(bits);
+    }
     // do the two spellings differ below the type level?
     let inner = |s: &TypeSpec| -> String {
         let mut o = String::new();
@@ -223,7 +229,10 @@ pub fn eval(dna: &[u16]) -> Pair {
         o
     };
     let field_level_differs = inner(&s1) != inner(&s2);
-    let groups = groups_exercised(&s1, &s2);
+    let mut groups = groups_exercised(&s1, &s2);
+    if b.contains("__ng") {
+        groups.push("macro_fragments_vs_plain_tokens");
+    }
     let ea = engine::expand_src(&a);
     let eb = engine::expand_src(&b);
     let both_ok = ea.is_ok() && eb.is_ok();
